@@ -1406,6 +1406,9 @@ fn run_once(plan: &Plan, faults: &[FaultSpec], rep: &mut RunReport) -> (usize, u
     let (mb, mc) = st.limits;
     let at_limit = st.puts.iter().filter(|p| p.chunks.len() == mc || p.data_len + 128 * 1024 > mb).count();
     rep.count("probe:xorb_cut_at_a_limit", at_limit as u64);
+    // calls of `exists` on the upload path (none in the shipped session)
+    let n_exists = *st.counters.get("exists").unwrap_or(&0) as usize;
+    rep.counters.insert("store_exists_calls_last_execution".into(), n_exists as u64);
     (st.puts.len(), st.shards.len(), *st.counters.get("query").unwrap_or(&0) as usize)
 }
 
@@ -1494,6 +1497,11 @@ impl Engine for SessionEngine {
             }
             for i in 0..n_query.min(4) as u64 {
                 sets.push(vec![FaultSpec { kind: "query".into(), index: i, mode: FaultMode::FailBefore }]);
+            }
+            // any other store call the session makes on its upload path (the shipped code makes none)
+            let n_exists = rep.counters.get("store_exists_calls_last_execution").copied().unwrap_or(0);
+            for i in 0..n_exists.min(8) {
+                sets.push(vec![FaultSpec { kind: "exists".into(), index: i, mode: FaultMode::FailBefore }]);
             }
             let mut rng = Rng::new(p.schedule_seed ^ 0xFA17);
             for _ in 0..3 {
